@@ -477,6 +477,17 @@ func c18FeeQuoteHistory(c *mon.Ctx, h *c18Hist) {
 						rec.add(c18Op{proc: g, kind: "FeeQuotes.UpdateMinerFees", key: "fee:" + m + ":" + string(t), write: true, val: id, call: call, ret: ret})
 					}
 				case 14: // FeeQuotes.Quote then Fee through the returned quote (known miners: the quote object is never replaced)
+					if r.Chance(1, 6) { // look-ups that fail (a miner nobody ever added): an error path of a reader
+						switch r.Intn(3) {
+						case 0:
+							_, _ = fqs.Quote("nobody")
+						case 1:
+							_, _ = fqs.Fee("nobody", t)
+						default:
+							_, _ = fqs.UpdateMinerFees("nobody", t, mkFee(t, valDefault))
+						}
+						continue
+					}
 					m := prng.Pick(r, []string{"m0", "m1"})
 					var q *bt.FeeQuote
 					var err error
